@@ -606,7 +606,7 @@ class StubError(Exception):
     pass
 
 
-STUB_NAMES = ('vhd', 'vhdx', 'qcow2')     # 'vhd' is a substring of 'vhdx'
+STUB_NAMES = ('vhd', 'vhdx', 'qcow2', 'vdi')   # 'vhd' is a substring of 'vhdx'
 
 
 def scen_pipe(ctx, M):
